@@ -8,7 +8,6 @@ def parseArr (j : Json) : Arr :=
     conn := intList (getObj j "c"),
     mask := (intList (getObj j "m")).map (· != 0) }
 def parseMorph (j : Json) : Morph := { id := getStr? j "id", arr := parseArr j }
-def parseCell (j : Json) : Cell := { id := getStr? j "id", morph := { id := getStr? j "mid", arr := parseArr j } }
 
 def intJ (i : Int) : Json := Json.num (JsonNumber.fromInt i)
 def vecJ : Vec4 → Json | (a, b, c, d) => Json.arr #[intJ a, intJ b, intJ c, intJ d]
@@ -51,16 +50,14 @@ def resJ (o : Obj) : Res → Json
   | .unit r => unitJ r o
 
 /-- one call of a history; `valid` (`valid_ids`) and `set` (`segments[i] = seg`) are outside the property's `Op` -/
-def stepJ (fixed : Bool) (o : Obj) (j : Json) : Json × Obj :=
+def stepJ (o : Obj) (j : Json) : Json × Obj :=
   match getStr j "o" with
   | "get" => let r := step o (.get (getInt j "i")); (resJ r.2 r.1, r.2)
   | "len" => let r := step o .len; (resJ r.2 r.1, r.2)
   | "iter" => let r := step o .iter; (resJ r.2 r.1, r.2)
   | "sfv" => let r := step o (.sfv (getInt j "k")); (resJ r.2 r.1, r.2)
   | "conv" => let r := step o .conv; (resJ r.2 r.1, r.2)
-  | "toroot" =>
-    let r := (if fixed then stepFixed o (.toRoot (getInt j "j")) else step o (.toRoot (getInt j "j")))
-    (resJ r.2 r.1, r.2)
+  | "toroot" => let r := step o (.toRoot (getInt j "j")); (resJ r.2 r.1, r.2)
   | "valid" => (Json.bool (validIds o), o)
   | "append" => (Json.null, appendSeg o (parseSeg (getObj j "s")))
   | "iadd" => (Json.null, (getArr j "ss").toList.foldl (fun o' sj => appendSeg o' (parseSeg sj)) o)   -- `segments += [...]`
@@ -75,45 +72,42 @@ def stepJ (fixed : Bool) (o : Obj) (j : Json) : Json × Obj :=
   | "set" => (Json.null, setItem o (getInt j "i") (parseSeg (getObj j "s")))
   | _ => (Json.mkObj [("error", "unknown call")], o)
 
-def histJ (fixed : Bool) (o : Obj) : List Json → List Json × Obj
+def histJ (o : Obj) : List Json → List Json × Obj
   | [] => ([], o)
-  | c :: cs => let r := stepJ fixed o c; let rs := histJ fixed r.2 cs; (r.1 :: rs.1, rs.2)
+  | c :: cs => let r := stepJ o c; let rs := histJ r.2 cs; (r.1 :: rs.1, rs.2)
 
 def handle (j : Json) : Json :=
   match getStr j "op" with
   | "hist" =>
-    -- "fixed": the tree under test has fixes/C18-toroot-invalidates-cache.patch (to_root empties the cache)
-    let r := histJ (getBool j "fixed") (fresh (parseArr j)) (getArr j "calls").toList
+    let r := histJ (fresh (parseArr j)) (getArr j "calls").toList
     Json.mkObj [("steps", Json.arr r.1.toArray), ("arr", arrJ r.2.arr), ("cache", cacheJ r.2.cache)]
   | "morph" =>
     let a := parseArr j
     Json.mkObj [("len", viewLen a), ("iter", segsJ (viewIter a)),
       ("get", Json.arr ((intList (getObj j "idx")).map (fun i => exJ segJ (viewGet a i))).toArray),
-      ("conv", exJ segsJ (if getBool j "old" then toNeuromlMorphologyOld a else toNeuromlMorphology a))]
+      ("conv", exJ segsJ (toNeuromlMorphology a))]
   | "toroot" =>
     let a := parseArr j
     match toRoot a (getInt j "j") with
     | .ok a' => Json.mkObj [("res", "ok"), ("arr", arrJ a')]
     | .error e => Json.mkObj [("res", errJ e)]
   | "single" =>
-    match (writeMorph (parseMorph j)).bind load with
+    match (writeMorph (parseMorph j)).map load with
     | .ok ms => Json.mkObj [("res", "ok"), ("morphs", Json.arr (ms.map arrJ).toArray)]
     | .error e => Json.mkObj [("res", errJ e)]
   | "doc" =>
-    let xcell (c : Json) : XCell :=
+    -- "obj": which Python object the member's ArrayMorphology is (members with the same number share one object)
+    let acell (c : Json) : ACell :=
       { id := getStr? c "id",
         morph := match getStr c "kind" with
           | "none" => .none
           | "plain" => .plain
-          | _ => .array { id := getStr? c "mid", arr := parseArr c } }
-    let xmorph (m : Json) : XMorph := match getStr m "kind" with | "plain" => .plain | _ => .array (parseMorph m)
-    let d : Doc := { cells := (getArr j "cells").toList.map parseCell, morphs := (getArr j "morphs").toList.map parseMorph }
-    let xd : XDoc := { cells := (getArr j "cells").toList.map xcell, morphs := (getArr j "morphs").toList.map xmorph }
-    -- "loader_fixed": the tree under test has fixes/C18-loader-vertices-is-array.patch
-    let ld (f : H5) : Except Err (List Arr) := if getBool j "loader_fixed" then .ok (loadFixed f) else load f
-    -- "writer_fixed": the tree under test has fixes/C18-writer-skips-non-array.patch
-    let wr := if getBool j "old" then writeDocOld d else if getBool j "writer_fixed" then writeXDocFixed xd else writeXDoc xd
-    match wr.bind ld with
+          | _ => .array { key := (getInt c "obj").toNat, m := { id := getStr? c "mid", arr := parseArr c } } }
+    let amorph (m : Json) : AMorph := match getStr m "kind" with
+      | "plain" => .plain
+      | _ => .array { key := (getInt m "obj").toNat, m := parseMorph m }
+    let ad : ADoc := { cells := (getArr j "cells").toList.map acell, morphs := (getArr j "morphs").toList.map amorph }
+    match (writeADoc ad).map load with
     | .ok ms => Json.mkObj [("res", "ok"), ("morphs", Json.arr (ms.map arrJ).toArray)]
     | .error e => Json.mkObj [("res", errJ e)]
   | _ => Json.mkObj [("error", "unknown op")]
